@@ -284,3 +284,34 @@ pub fn c03_log_info(inp: &[u8; 12]) -> Result<(), u32> {
     if r.len() > 65535 { return Err(1); }
     Ok(())
 }
+
+use adlt::filter::{Char4OrRegex, Filter, FilterKind, FilterKindContainer};
+use adlt::utils::remote_utils::match_filters;
+
+/// C12: match_filters against the property's formula for a set with 0..1 filter of each of the four kinds; each filter has
+/// a literal ECU criterion (one of two ECUs) and a symbolic enabled flag... (only enabled filters are put into the set, as
+/// StreamContext::from does). inp[0]: which kinds are present (bits 0..3), inp[1]: which ECU each filter asks for (bits 0..3),
+/// inp[2]: the message's ECU (bit 0). codes: 1 result differs from the formula
+pub fn c12_match_filters(inp: &[u8; 3]) -> Result<(), u32> {
+    let ecus = [DltChar4::from_buf(b"ECU1"), DltChar4::from_buf(b"ECU2")];
+    let mut set: FilterKindContainer<Vec<Filter>> = Default::default();
+    let kinds = [FilterKind::Positive, FilterKind::Negative, FilterKind::Marker, FilterKind::Event];
+    let mut present = [false; 4];
+    let mut hits = [false; 4];
+    let msg_ecu = (inp[2] & 1) as usize;
+    for k in 0..4usize {
+        if inp[0] & (1 << k) != 0 {
+            let want = ((inp[1] >> k) & 1) as usize;
+            let mut f = Filter::new(kinds[k]);
+            f.ecu = Some(Char4OrRegex::DltChar4(ecus[want]));
+            set[kinds[k]].push(f);
+            present[k] = true;
+            hits[k] = want == msg_ecu;
+        }
+    }
+    let mut m = mk_msg(1, 1);
+    m.ecu = ecus[msg_ecu];
+    let expected = (!present[0] || hits[0]) && !(present[1] && hits[1]) && (!present[3] || hits[3]);
+    if match_filters(&m, &set) != expected { return Err(1); }
+    Ok(())
+}
